@@ -133,7 +133,7 @@ def candidates(case):
     # knobs
     for key, neutral in (('stall_den', 0), ('tie_shuffle', False),
                          ('base', 0.0), ('wall_offset', 0), ('entry', 'run'),
-                         ('noise', 0)):
+                         ('noise', 0), ('sync_shutdown', False)):
         if case['knobs'].get(key) != neutral:
             new = variant()
             new['knobs'][key] = neutral
